@@ -8,7 +8,8 @@ Leg S2C : TLC -simulate behaviours (configuration + call order) are executed on 
           (distinct JSON documents, multi-byte text, with / without action-and-meta-data lines), real offset tables are built
           by loader.DocumentSetPreparator.create_file_offset_table, a real Track / Task / BulkIndexParamSource per group is
           created through loader.operation_parameters, partition() is called per co-located client by the real
-          driver.schedule_for and params() through ScheduleHandle in the order of the TLC behaviour; every parameter dict is sent
+          driver.schedule_for (in a seeded registration order per group: as listed / reversed / rotated / shuffled; case field
+          "reg") and params() through ScheduleHandle in the order of the TLC behaviour; every parameter dict is sent
           through the real runner.BulkIndex to a stand-in _bulk endpoint and the received bodies are lexed back into
           (file, document) ids.  Every state of the seek model becomes a real file + offset table for io.skip_lines.
           The groups of the "alloc" cases are what the REAL Allocator + calculate_worker_assignments put on one worker in
@@ -277,9 +278,10 @@ def build_track(fs, cfg, pct_full=False, extra=None):
 _RUNNERS = [False]
 
 
-def make_handles(trk, task, groups, allocations=None):
+def make_handles(trk, task, groups, allocations=None, reg=None):
     """One parameter source per group (what AsyncIoAdapter.run does per worker and task), partition() per co-located client
-    through the real schedule_for. Returns {client: ScheduleHandle}."""
+    through the real schedule_for, in the registration order reg[g] (a permutation of the group; default: as listed).
+    Returns {client: ScheduleHandle}."""
     from esrally.driver import driver, runner
     from esrally.track import loader
 
@@ -287,9 +289,12 @@ def make_handles(trk, task, groups, allocations=None):
         runner.register_default_runners()
         _RUNNERS[0] = True
     handles = {}
-    for g in groups:
+    for gi, g in enumerate(groups):
         ps = loader.operation_parameters(trk, task)
-        for c in g:
+        order = reg[gi] if reg else g
+        if sorted(order) != sorted(g):
+            raise tlc.MachineryError("registration order %r is not a permutation of the group %r" % (order, g))
+        for c in order:
             ta = allocations[c] if allocations else driver.TaskAllocation(task, c, c, task.clients)
             handles[c] = driver.schedule_for(ta, ps)
     return handles
@@ -401,7 +406,8 @@ def execute(case, root):
     # reference run with ingest percentage 100: the bulks of every group
     random.seed(case["seed"])
     trk, task = build_track(fs, cfg, pct_full=True, extra=case)
-    handles = make_handles(trk, task, groups, allocs(task) if allocs else None)
+    reg = case.get("reg")
+    handles = make_handles(trk, task, groups, allocs(task) if allocs else None, reg)
     full = []
     cap = sum(s["docs"] for s in fs.files) + cfg["N"] + 8
     for g in groups:
@@ -418,7 +424,7 @@ def execute(case, root):
     # the run itself
     random.seed(case["seed"] + 1)
     trk, task = build_track(fs, cfg, extra=case)
-    handles = make_handles(trk, task, groups, allocs(task) if allocs else None)
+    handles = make_handles(trk, task, groups, allocs(task) if allocs else None, reg)
     gidx = {c: gi + 1 for gi, g in enumerate(groups) for c in g}
     stopped = set()
     events = []
@@ -1094,6 +1100,26 @@ def _noncontiguous(groups):
     return any(sorted(g) != list(range(min(g), min(g) + len(g))) for g in groups if g)
 
 
+def registration_order(groups, seed):
+    """The order in which the co-located clients of every group register with the shared parameter source (partition()):
+    as listed, reversed, rotated or shuffled (seeded per case). Which client of a worker is set up first is not part of the
+    configuration the property quantifies over, so every order is a legal execution of the same split."""
+    rnd = random.Random(seed * 7 + 3)
+    reg = []
+    for g in groups:
+        g = list(g)
+        mode = rnd.randrange(4)
+        if mode == 1:
+            g.reverse()
+        elif mode == 2:
+            k = rnd.randrange(len(g))
+            g = g[k:] + g[:k]
+        elif mode == 3:
+            rnd.shuffle(g)
+        reg.append(g)
+    return reg
+
+
 def _public(case):
     return {k: v for k, v in case.items() if not k.startswith("_") and k != "id"}
 
@@ -1132,6 +1158,9 @@ def run_cases(cases, out, label, root, pending=None):
         case["kind"] = "run"
         if case.get("src") == "real-allocator" and "_allocations" not in case:
             resolve_alloc_case(case)
+        if "reg" not in case:
+            # real-allocator cases too: the real TaskAllocation objects are registered in another order than the worker's
+            case["reg"] = registration_order(case["cfg"]["groups"], case["seed"])
         it = execute(case, os.path.join(root, "case"))
         index[case["id"]] = case
         fs = it.pop("fs")
@@ -1160,7 +1189,7 @@ def run_cases(cases, out, label, root, pending=None):
 def run(ctx, out):
     out.rule = (
         "case = (document files [corpus, docs, with/without action-and-meta-data lines], client count, split of the clients into groups that "
-        "share one parameter source, bulk size, batch multiplier, ingest percentage, conflict mode, order of params() calls); distinct by "
+        "share one parameter source, bulk size, batch multiplier, ingest percentage, conflict mode, order in which the co-located clients register (partition()), order of params() calls); distinct by "
         "hash; non-trivial = at least 2 bulks handed out. Sources: TLC -simulate behaviours (S2C), splits computed by the real Allocator + "
         "calculate_worker_assignments, files with > 50 000 lines, seeded random wider cases (C2S only); plus one seek case per state of "
         "the seek model, bounds() chains on up to 10^12 documents, and one case per group size (1..200/300 bulks) with a row per ingest percentage."
